@@ -43,14 +43,16 @@ Proof. destruct x; cbn; try lia. pose proof (nbits_pos_pos p). lia. Qed.
 
 Definition tbl_ok (t : ctbl) : Prop := forall i, 0 <= nthZ (ehufsi t) i <= 16.
 
-Lemma put_code_phi st temp nb code size :
+Lemma put_code_phi st temp nb code size st' :
   bs_ok st -> 0 <= nb -> 0 <= size -> nb + size <= g_BIT_BUF_SIZE ->
-  bs_ok (put_code st temp nb code size) /\ phi (put_code st temp nb code size) <= phi st + nb + size /\
-  olen st <= olen (put_code st temp nb code size).
+  put_code st temp nb code size = inr st' ->
+  bs_ok st' /\ phi st' <= phi st + nb + size /\ olen st <= olen st'.
 Proof.
-  intros Hs Hn Hz Hb. unfold put_code. cbv zeta.
+  intros Hs Hn Hz Hb. unfold put_code.
+  destruct ((g_MISSING_CODE_CHECK =? 1) && (size =? 0)); [discriminate|]. cbv zeta.
+  intro E. injection E as <-.
   destruct (put_bits_phi st (Z.lor (Z.land temp (2 ^ nb - 1)) (Z.shiftl code nb)) (nb + size) Hs ltac:(lia)) as [A [B C]].
-  unfold bs_ok in *; repeat split; try assumption; lia.
+  split; [exact A|split; [lia|exact C]].
 Qed.
 
 Lemma zrl_fold_phi actbl : tbl_ok actbl -> forall (l : list nat) st,
@@ -69,15 +71,14 @@ Qed.
 Lemma ac_step_psi prec actbl v st r st' r' :
   tbl_ok actbl -> 0 <= prec -> prec + g_MAX_COEF_BITS_ADD + 16 <= g_BIT_BUF_SIZE ->
   bs_ok st -> 0 <= r ->
-  ac_step prec actbl v (Some (st, r)) = Some (st', r') ->
+  ac_step prec actbl v (inr (st, r)) = inr (st', r') ->
   bs_ok st' /\ 0 <= r' /\ 16 * phi st' + r' <= 16 * phi st + r + 16 * (prec + g_MAX_COEF_BITS_ADD + 16) /\ olen st <= olen st'.
 Proof.
   intros Ht Hp Hfit Hs Hr. unfold ac_step.
   destruct (v =? 0).
-  - intro E. inversion E; subst. change g_MAX_COEF_BITS_ADD with 2 in *. unfold bs_ok in *; repeat split; try assumption; lia.
+  - intro E. injection E as <- <-. change g_MAX_COEF_BITS_ADD with 2 in *. unfold bs_ok in *; repeat split; try assumption; lia.
   - destruct (abs_trick v) as [temp mag].
     destruct (nbits mag >? prec + g_MAX_COEF_BITS_ADD) eqn:Echk; [discriminate|].
-    intro E. injection E as E1 E2. subst st' r'.
     pose proof (nbits_nonneg mag) as Hnb.
     destruct (zrl_fold_phi actbl Ht (seq 0 (Z.to_nat (r / 256))) st Hs) as [A [B C]]. cbv zeta in A, B, C.
     rewrite seq_length in B.
@@ -85,7 +86,9 @@ Proof.
                           (seq 0 (Z.to_nat (r / 256))) st) in *.
     set (sym := Z.to_nat (r - r / 256 * 256 + nbits mag)).
     pose proof (Ht sym) as Hsz.
-    destruct (put_code_phi st1 temp (nbits mag) (nthZ (ehufco actbl) sym) (nthZ (ehufsi actbl) sym) A Hnb ltac:(lia) ltac:(lia))
+    destruct (put_code st1 temp (nbits mag) (nthZ (ehufco actbl) sym) (nthZ (ehufsi actbl) sym)) as [e|st2] eqn:Epc; [discriminate|].
+    intro E. injection E as <- <-.
+    destruct (put_code_phi st1 temp (nbits mag) (nthZ (ehufco actbl) sym) (nthZ (ehufsi actbl) sym) st2 A Hnb ltac:(lia) ltac:(lia) Epc)
       as [A2 [B2 C2]].
     assert (r / 256 * 256 <= r) by (rewrite Z.mul_comm; apply Z.mul_div_le; lia).
     assert (0 <= r / 256) by (apply Z.div_pos; lia).
@@ -95,18 +98,18 @@ Qed.
 Lemma ac_fold_psi prec actbl : tbl_ok actbl -> 0 <= prec -> prec + g_MAX_COEF_BITS_ADD + 16 <= g_BIT_BUF_SIZE ->
   forall acs st r st' r',
   bs_ok st -> 0 <= r ->
-  fold_left (fun acc v => ac_step prec actbl v acc) acs (Some (st, r)) = Some (st', r') ->
+  fold_left (fun acc v => ac_step prec actbl v acc) acs (inr (st, r)) = inr (st', r') ->
   bs_ok st' /\ 0 <= r' /\
   16 * phi st' + r' <= 16 * phi st + r + 16 * (prec + g_MAX_COEF_BITS_ADD + 16) * Z.of_nat (length acs) /\
   olen st <= olen st'.
 Proof.
   intros Ht Hp Hfit acs. induction acs as [|v acs IH]; intros st r st' r' Hs Hr E; cbn [fold_left length] in *.
-  - inversion E; subst. unfold bs_ok in *; repeat split; try assumption; lia.
-  - destruct (ac_step prec actbl v (Some (st, r))) as [[st1 r1]|] eqn:E1.
+  - injection E as <- <-. unfold bs_ok in *; repeat split; try assumption; lia.
+  - destruct (ac_step prec actbl v (inr (st, r))) as [e|[st1 r1]] eqn:E1.
+    + exfalso. clear - E. induction acs as [|w acs IHa]; cbn in E; [discriminate|]. apply IHa. exact E.
     + destruct (ac_step_psi prec actbl v st r st1 r1 Ht Hp Hfit Hs Hr E1) as [A [B [C D]]].
       destruct (IH st1 r1 st' r' A B E) as [A' [B' [C' D']]].
       unfold bs_ok in *; repeat split; try assumption; nia.
-    + exfalso. clear - E. induction acs as [|w acs IHa]; cbn in E; [discriminate|]. apply IHa. exact E.
 Qed.
 
 (* bytes one block can add, for data precision prec and n AC coefficients *)
@@ -116,7 +119,7 @@ Definition block_bytes_bound (prec : Z) (n : Z) : Z :=
 Theorem block_bytes_general : forall prec dctbl actbl st last_dc coefs st',
   0 <= prec -> prec + g_MAX_COEF_BITS_ADD + g_DC_EXTRA_BITS + 16 <= g_BIT_BUF_SIZE ->
   tbl_ok dctbl -> tbl_ok actbl -> bs_ok st ->
-  encode_one_block prec dctbl actbl st last_dc coefs = Some st' ->
+  encode_one_block prec dctbl actbl st last_dc coefs = inr st' ->
   bs_ok st' /\ olen st <= olen st' /\
   olen st' - olen st <= block_bytes_bound prec (Z.of_nat (length coefs) - 1).
 Proof.
@@ -126,11 +129,11 @@ Proof.
   destruct (nbits mag >? prec + g_MAX_COEF_BITS_ADD + g_DC_EXTRA_BITS) eqn:Echk; [discriminate|].
   pose proof (nbits_nonneg mag) as Hnb.
   set (sym := Z.to_nat (nbits mag)). pose proof (Hdt sym) as Hsz.
-  destruct (put_code_phi st temp (nbits mag) (nthZ (ehufco dctbl) sym) (nthZ (ehufsi dctbl) sym) Hs Hnb ltac:(lia) ltac:(lia))
+  destruct (put_code st temp (nbits mag) (nthZ (ehufco dctbl) sym) (nthZ (ehufsi dctbl) sym)) as [e|st1] eqn:Epc; [discriminate|].
+  destruct (put_code_phi st temp (nbits mag) (nthZ (ehufco dctbl) sym) (nthZ (ehufsi dctbl) sym) st1 Hs Hnb ltac:(lia) ltac:(lia) Epc)
     as [A1 [B1 C1]].
-  set (st1 := put_code st temp (nbits mag) (nthZ (ehufco dctbl) sym) (nthZ (ehufsi dctbl) sym)) in *.
-  destruct (fold_left (fun acc v => ac_step prec actbl v acc) acs (Some (st1, 0))) as [[st2 r]|] eqn:Ef; [|discriminate].
-  intro E. inversion E; subst st'; clear E.
+  destruct (fold_left (fun acc v => ac_step prec actbl v acc) acs (inr (st1, 0))) as [e|[st2 r]] eqn:Ef; [discriminate|].
+  intro E. injection E as <-.
   assert (Hfit2 : prec + g_MAX_COEF_BITS_ADD + 16 <= g_BIT_BUF_SIZE) by (change g_DC_EXTRA_BITS with 1 in Hfit; lia).
   destruct (ac_fold_psi prec actbl Hat Hp Hfit2 acs st1 0 st2 r A1 ltac:(lia) Ef) as [A2 [B2 [C2 D2]]].
   assert (Hfinal : forall stf, bs_ok stf -> phi stf <= phi st2 + 16 -> olen st2 <= olen stf ->
@@ -152,7 +155,7 @@ Qed.
 Theorem block_fits_staging_lemma : forall prec dctbl actbl st last_dc coefs st',
   0 <= prec <= g_LOSSY_PREC_B -> tbl_ok dctbl -> tbl_ok actbl -> bs_ok st ->
   (length coefs <= Z.to_nat g_DCTSIZE2)%nat ->
-  encode_one_block prec dctbl actbl st last_dc coefs = Some st' ->
+  encode_one_block prec dctbl actbl st last_dc coefs = inr st' ->
   olen st' - olen st <= g_BUFSIZE.
 Proof.
   intros prec dctbl actbl st last_dc coefs st' Hp Hdt Hat Hs Hlen E.
@@ -275,7 +278,7 @@ Corollary block_fits_staging_derived : forall prec dbits dvals abits avals dct a
   0 <= prec <= g_LOSSY_PREC_B ->
   make_c_derived dbits dvals 15 = Some dct -> make_c_derived abits avals 255 = Some act ->
   bs_ok st -> (length coefs <= Z.to_nat g_DCTSIZE2)%nat ->
-  encode_one_block prec dct act st last_dc coefs = Some st' ->
+  encode_one_block prec dct act st last_dc coefs = inr st' ->
   olen st' - olen st <= g_BUFSIZE.
 Proof.
   intros prec dbits dvals abits avals dct act st last_dc coefs st' Hp Hd Ha Hs Hl E.
